@@ -202,4 +202,98 @@ theorem waitLoop_progress {α : Type} (test : Bytes → Option α) : ∀ (f : Na
       · rw [hres, List.append_assoc, hflat]
       · rw [hnow', hnow2, hs, ← takeHead_lastTick s.chunk, ← hsc2]
 
+
+theorem takeHead_append (n : Nat) (pc : Piece) (ps rest : List Piece) :
+    takeHead n pc (ps ++ rest) = ((takeHead n pc ps).1, (takeHead n pc ps).2 ++ rest) := by
+  unfold takeHead
+  split <;> rfl
+
+theorem flat_append (a b : List Piece) : flat (a ++ b) = flat a ++ flat b := by
+  simp [flat]
+
+/-- `read_iter(max=n)` pulled to exhaustion when the next `n` bytes are exactly the pieces `ep`:
+    they are consumed, the rest of the script is untouched -/
+theorem riTake_progress (n : Nat) (rest : List Piece) : ∀ (f : Nat) (ri : RI) (s : St) (acc : List Bytes) (ep : List Piece),
+    ri.max = some n → ri.timeout = none → ri.t0 ≤ s.now → Calm s → s.script = ep ++ rest →
+    ri.got + (flat ep).length = n → (ri.started = true ∨ ri.got < n) → (flat ep).length < f →
+    ∃ cs s', riTake f none ri s acc = ((acc ++ cs, none), s') ∧ cs.flatten = flat ep ∧ s'.script = rest
+      ∧ s'.now = lastTick s.now ep ∧ SameCfg s s' := by
+  intro f
+  induction f with
+  | zero => intro ri s acc ep _ _ _ _ _ _ _ hf; omega
+  | succ f ih =>
+    intro ri s acc ep hmax htmo hle hc hs hgot hst hf
+    unfold riTake
+    simp only [show (none : Option Nat) ≠ some 0 from by simp, if_false]
+    cases ep with
+    | nil =>
+      -- nothing left to read: the iterator is exhausted
+      simp only [flat, List.map_nil, List.flatten_nil, List.length_nil, Nat.add_zero] at hgot
+      have hstarted : ri.started = true := by
+        rcases hst with h | h
+        · exact h
+        · omega
+      have : riNext ri s = (.done, ri, s) := by
+        unfold riNext
+        simp [hstarted, hmax, hgot]
+      rw [this]
+      exact ⟨[], s, by simp, rfl, by simpa using hs, rfl, SameCfg.refl s⟩
+    | cons pc ep' =>
+      have hwfs : ∀ q ∈ s.script, q.data ≠ [] := hc.wf
+      have hpcne : pc.data ≠ [] := hwfs pc (by rw [hs]; exact List.mem_cons_self ..)
+      have hpclen : 0 < pc.data.length := List.length_pos_iff.mpr hpcne
+      have hflat_ep : (flat (pc :: ep')).length = pc.data.length + (flat ep').length := by
+        simp [flat]
+      have hlt : ri.got < n := by omega
+      obtain ⟨s2, hnext, hsc2, hnow2, hsame2⟩ := riNext_head ri s hc hle (Or.inl htmo)
+        (by rw [hmax]; intro h; have := h.2; simp at this; omega) pc (ep' ++ rest) (by rw [hs]; rfl)
+      have hmr : ri.maxRead s.chunk = min s.chunk (n - ri.got) := by unfold RI.maxRead; rw [hmax]
+      rw [takeHead_append] at hnext hsc2
+      simp only at hnext hsc2
+      have hth := takeHead_spec (ri.maxRead s.chunk) pc ep'
+      generalize hb : (takeHead (ri.maxRead s.chunk) pc ep').1 = b at hnext hth
+      generalize hep2 : (takeHead (ri.maxRead s.chunk) pc ep').2 = ep2 at hsc2 hth
+      have hbne : b ≠ [] := hth.2.2.1 hpcne (by rw [hmr]; have := hc.chunk; omega)
+      have hblen : 0 < b.length := List.length_pos_iff.mpr hbne
+      have hble : b.length ≤ n - ri.got := by have := hth.2.1; rw [hmr] at this; omega
+      have hflat2 : b ++ flat ep2 = flat (pc :: ep') := by
+        have := hth.1
+        simpa [flat] using this
+      have hlen2 : b.length + (flat ep2).length = (flat (pc :: ep')).length := by
+        rw [← hflat2, List.length_append]
+      rw [hnext]
+      simp only [Option.map_none]
+      have hwf2 : WF s2 := by
+        unfold WF
+        rw [hsc2]
+        intro q hq
+        rcases List.mem_append.mp hq with h | h
+        · exact hth.2.2.2 (fun x hx => hwfs x (by rw [hs]; exact List.mem_append_left _ hx)) q h
+        · exact hwfs q (by rw [hs]; exact List.mem_append_right _ h)
+      obtain ⟨cs, s', hres, hcs, hsc', hnow', hsame'⟩ := ih { ri with got := ri.got + b.length, started := true } s2
+        (acc ++ [b]) ep2 hmax htmo (by show ri.t0 ≤ s2.now; rw [hnow2]; omega) (hsame2.calm hc hwf2) hsc2
+        (by show ri.got + b.length + (flat ep2).length = n; omega) (Or.inl rfl) (by omega)
+      refine ⟨b :: cs, s', ?_, ?_, hsc', ?_, hsame2.trans hsame'⟩
+      · rw [hres]; simp
+      · rw [List.flatten_cons, hcs, hflat2]
+      · rw [hnow', hnow2, ← hep2, takeHead_lastTick]
+
+/-- `read(n)` without a timeout when the next `n` bytes are exactly the pieces `ep` -/
+theorem readn_progress (n : Nat) (s : St) (hc : Calm s) (ep rest : List Piece) (hs : s.script = ep ++ rest)
+    (hn : (flat ep).length = n) (hpos : 0 < n) :
+    ∃ v s', read (some n) none s = (.ok v, s') ∧ s'.script = rest ∧ s'.now = lastTick s.now ep ∧ SameCfg s s' := by
+  have hfuel : (flat ep).length < fuelFor s := by
+    unfold fuelFor
+    rw [Chan.bytesLeft_eq, hs, flat_append, List.length_append]
+    omega
+  obtain ⟨cs, s', hres, hcs, hsc', hnow', hsame'⟩ := riTake_progress n rest (fuelFor s) (riStart (some n) none s) s [] ep
+    rfl rfl (Nat.le_refl _) hc hs (by show 0 + (flat ep).length = n; omega) (Or.inr (by show 0 < n; exact hpos)) hfuel
+  unfold Chan.read
+  simp only
+  rw [hres]
+  simp only [List.nil_append]
+  have hlen : (cs.flatten.length == n) = true := by rw [hcs, hn]; simp
+  rw [if_pos hlen]
+  exact ⟨_, s', rfl, hsc', hnow', hsame'⟩
+
 end Board
